@@ -167,12 +167,56 @@ fn slow_backlog(cap: Option<usize>, n: usize) -> usize {
     acc
 }
 
+struct StallingSink {
+    got: Arc<std::sync::Mutex<Vec<String>>>,
+}
+
+impl MetricSink for StallingSink {
+    fn emit(&self, m: &str) -> io::Result<usize> {
+        if m.starts_with("stall") {
+            std::thread::sleep(PAUSE);
+        }
+        self.got.lock().unwrap().push(m.to_string());
+        Ok(m.len())
+    }
+}
+
+/// The wrapped sink stalls for an hour on one metric while others are accepted behind it (handles alive): however long
+/// a metric has waited in the queue, it is handed over - once, in order (C08). Age is not a reason to skip it.
+fn stall_with_backlog(cap: Option<usize>) -> usize {
+    let got = Arc::new(std::sync::Mutex::new(Vec::new()));
+    let sink = StallingSink { got: got.clone() };
+    let q = match cap {
+        Some(c) => QueuingMetricSink::with_capacity(sink, c),
+        None => QueuingMetricSink::from(sink),
+    };
+    let mut accepted = Vec::new();
+    for m in ["stall.a:1|c", "b:2|c", "c:3|c", "stall.d:4|c", "e:5|c"] {
+        if q.emit(m).is_ok() {
+            accepted.push(m.to_string());
+        }
+        std::thread::sleep(Duration::from_secs(7));
+    }
+    let n = accepted.len() as u64;
+    // (at rest = the queue's thread has taken everything and is no longer inside the wrapped sink)
+    wait_for("the queue coming to rest", "C08", || q.drained() >= n && q.queued() == 0);
+    std::thread::sleep(PAUSE * 3);
+    let g = got.lock().unwrap().clone();
+    if g != accepted {
+        fail("C08", format!("accepted {:?} (the wrapped sink stalls for an hour on the 'stall' metrics), delivered {:?}", accepted, g));
+    }
+    drop(q);
+    accepted.len()
+}
+
 fn main() {
     let mut metrics = 0;
+    metrics += stall_with_backlog(None);
+    metrics += stall_with_backlog(Some(8));
     metrics += direct_pauses();
     metrics += queued_pauses(None);
     metrics += queued_pauses(Some(8));
     metrics += slow_backlog(None, 7);
     metrics += slow_backlog(Some(4), 7);
-    println!("miri_time ok scenarios=5 metrics={} virtual_pause_s={}", metrics, PAUSE.as_secs());
+    println!("miri_time ok scenarios=7 metrics={} virtual_pause_s={}", metrics, PAUSE.as_secs());
 }
